@@ -126,9 +126,14 @@ template <class... Args> struct Runner {
                 c->log.emplace_back(i, render(a...));
                 if (c->self_inval[(size_t)i]) { c->self_inval[(size_t)i] = false; self->invalidate(); }
             });
-        } else {
+        } else if (id % 2 == 0) {
             auto up = std::make_unique<EternalObserver<Args...>>([cp, id, s = Sentinel(id)](Args... a) { Ctx *c = cp; int i = id; c->log.emplace_back(i, render(a...)); });
             h->sub = subject->subscribe(std::move(up));
+        } else {
+            // raw pointer to a derived observer: ownership passes to the Subject; the callable is installed with Observer::operator=(Func)
+            auto *raw = new EternalObserver<Args...>([](Args...) {});
+            *static_cast<Observer<Args...> *>(raw) = typename Observer<Args...>::Func([cp, id, s = Sentinel(id)](Args... a) { Ctx *c = cp; int i = id; c->log.emplace_back(i, render(a...)); });
+            h->sub = subject->subscribe(raw);
         }
         h->id = id;
         handles.push_back(std::move(h));
